@@ -57,9 +57,11 @@ namespace vd
             {
                 auto fo = js::val::object();
                 fo.set("pos", f->position() == frame::position_invalid ? -1LL : (long long)f->position());
-                bool ok = false;
-                auto nx = f->peek(ok);
-                if (ok) { fo.set("next_line", (long long)(*nx)->diag_info().line); fo.set("next", (*nx)->to_string()); }
+                // the instruction that is executed next, taken from the instruction set itself (not through frame::peek, whose
+                // answer for a frame that has not started is part of what C19 judges)
+                auto& iset = f->m_instruction_set;
+                size_t nxi = f->position() == frame::position_invalid ? 0 : f->position() + 1;
+                if (nxi < iset.size()) { auto nx = iset.begin() + nxi; fo.set("next_line", (long long)(*nx)->diag_info().line); fo.set("next", (*nx)->to_string()); }
                 fr.push(fo);
             }
             c.set("frame_list", fr);
